@@ -3,6 +3,7 @@ package main
 // Ghost state: variables declared in the contract, updated at named sites.
 
 import (
+	"strconv"
 	"os"
 	"fmt"
 	"go/types"
@@ -149,6 +150,8 @@ func (fx *FnCtx) initGhost(st *State) {
 						continue
 					}
 					consider(ins) // append, or (lowest rank) an ordinary call: the site fires when it returns
+				case *ssa.Return:
+					consider(ins) // a return statement: the site fires just before the function returns
 				}
 			}
 		}
@@ -158,7 +161,7 @@ func (fx *FnCtx) initGhost(st *State) {
 		}
 		for site, found := range wanted {
 			if !found {
-				fx.fail("ghost site %s does not exist (no store, append or call on a line with that text)", site)
+				fx.fail("ghost site %s does not exist (no store, append, call or return on a line with that text)", site)
 			}
 		}
 	}
@@ -345,6 +348,29 @@ func (fx *FnCtx) siteLookup(st *State, at ssa.Instruction) func(string) (SV, boo
 			return SV{}, false
 		}
 		b := at.Block()
+		// rangeindexN / rangesliceN of an enclosing range loop with ordinal N
+		for _, pre := range []string{"rangeindex", "rangeslice"} {
+			if !strings.HasPrefix(name, pre) || len(name) == len(pre) || fx.loops == nil {
+				continue
+			}
+			n, err := strconv.Atoi(name[len(pre):])
+			if err != nil || n < 0 || n >= len(fx.loops.loops) || !fx.loops.loops[n].blocks[b] {
+				continue
+			}
+			idx, ln := rangeLoopParts(fx.loops.loops[n])
+			if idx == nil {
+				continue
+			}
+			if pre == "rangeindex" {
+				if v, ok := fx.vals[idx]; ok {
+					return SV{V: v}, true
+				}
+			} else if c, ok := ln.(*ssa.Call); ok && len(c.Call.Args) == 1 {
+				if v, ok := fx.vals[c.Call.Args[0]]; ok {
+					return SV{V: v}, true
+				}
+			}
+		}
 		var before []ssa.Instruction
 		for _, ins := range b.Instrs {
 			if ins == at {
